@@ -164,6 +164,7 @@ def h_reply(eng, case):
     life = eng.int('lifetime', 0, 2 ** 32 - 1) if has_life else None
     delay = eng.int('delay', 0, 2 ** 33)
     token = [None, b'\x01\x02\x03\x04'][eng.choice(2, 'token?')]
+    down = eng.choice(2, 'face-down?')
     saved = {}
 
     async def pass_v2(name, sig, ctx):
@@ -192,10 +193,16 @@ def h_reply(eng, case):
         await vloop.sleep_until(loop, loop.at_ms(delay))
         if 'reply' in saved:
             n0 = len(face.out)
+            if down:
+                face.running = False            # the connection to the forwarder is gone
+                face.send = lambda data: None   # ... and whatever is handed to it now goes nowhere
             try:
                 out['ret'] = saved['reply'](data)
             except Exception as e:
-                eng.fail('reply-no-error', exc_sig(e))
+                if down:
+                    out['ret'] = ('raised', exc_sig(e))      # an error is a truthful report of "not sent"
+                else:
+                    eng.fail('reply-no-error', exc_sig(e))
             out['sent'] = face.out[n0:]
     loop, r, err = appenv.run(eng, main, t0=t0)
     if 'reply' not in saved:
@@ -204,7 +211,11 @@ def h_reply(eng, case):
     eff = life if life is not None else 4000
     in_time = delay <= eff
     sent = out.get('sent', [])
-    if bool(in_time):
+    if down:
+        # nothing can be transmitted: the callback must not claim success (False or an error are both truthful)
+        eng.check(out.get('ret') is not True, 'reply-reports-truthfully', {'ret': repr(out.get('ret'))},
+                  sig='returned-True-with-the-face-down')
+    elif bool(in_time):
         eng.check(len(sent) == 1, 'reply-deadline', {'sent': len(sent)}, sig='in-time-reply-not-sent')
         eng.check(out.get('ret') is True, 'reply-reports-truthfully', {'ret': repr(out.get('ret'))},
                   sig='returned-%r-after-sending' % (out.get('ret'),))
